@@ -21,7 +21,7 @@ if ! patch -p1 -s < "$patch"; then echo "MUTANT $(basename $patch): patch does n
 if ! go build ./... 2>"$d/build.log"; then echo "MUTANT $(basename $patch): does not compile"; tail -5 "$d/build.log"; exit 3; fi
 if go test -vet=off -count=1 ./... >"$d/suite.log" 2>&1; then suite=passes; else suite=FAILS; fi
 for p in "$@"; do
-  out=$(cd "$kit" && VERIF_REPO="$d/repo" VERIF_KIT="$kit" VERIF_EVIDENCE_DIR="$d/evidence" bin/vcheck run "$p" 2>/dev/null)
+  out=$(cd "$kit" && VERIF_REPO="$d/repo" VERIF_KIT="$kit" VERIF_EVIDENCE_DIR="$d/evidence" VERIF_CHILD_AS_KIB=${VERIF_CHILD_AS_KIB-16777216} bin/vcheck run "$p" 2>/dev/null)
   code=$?
   echo "MUTANT $(basename $patch) suite=$suite check=$p exit=$code $(echo "$out" | grep -c '^VIOLATION') violation lines"
   echo "$out" | grep -A3 '^VIOLATION' | head -8 | cut -c1-300
